@@ -186,42 +186,76 @@ pub fn announce(i: u64) {
 /// crashed the process) is restarted behind the unit of work it had announced, and the crash is
 /// returned as a note. Returns all output lines and the crash notes.
 pub fn supervise(nw: u64, mk: &dyn Fn(u64) -> Command) -> Result<(Vec<String>, Vec<String>), String> {
-    let mut handles = Vec::new();
-    for w in 0..nw {
-        let mut c = mk(w).stdout(Stdio::piped()).stderr(Stdio::null()).spawn().map_err(|e| e.to_string())?;
+    use std::sync::atomic::{AtomicBool, Ordering};
+    use std::sync::{Arc, Mutex};
+    // a single run (compile + bounded emulation) that makes no progress for this long is killed
+    let limit = std::time::Duration::from_secs(std::env::var("VERIF_RUN_TIMEOUT").ok().and_then(|s| s.parse().ok()).unwrap_or(900));
+    type Collected = (Vec<String>, Option<i32>, bool);
+    let start = |w: u64, from: Option<u64>| -> Result<std::thread::JoinHandle<Collected>, String> {
+        let mut cmd = mk(w);
+        if let Some(f) = from {
+            cmd.env(START_ENV, f.to_string());
+        }
+        let mut c = cmd.stdout(Stdio::piped()).stderr(Stdio::null()).spawn().map_err(|e| e.to_string())?;
         let out = c.stdout.take().unwrap();
-        handles.push((w, std::thread::spawn(move || {
-            let lines: Vec<String> = BufReader::new(out).lines().map_while(Result::ok).collect();
+        let pid = c.id() as i32;
+        let last = Arc::new(Mutex::new(std::time::Instant::now()));
+        let done = Arc::new(AtomicBool::new(false));
+        let hung = Arc::new(AtomicBool::new(false));
+        {
+            let (last, done, hung) = (last.clone(), done.clone(), hung.clone());
+            std::thread::spawn(move || {
+                while !done.load(Ordering::SeqCst) {
+                    std::thread::sleep(std::time::Duration::from_millis(500));
+                    if last.lock().unwrap().elapsed() > limit && !done.load(Ordering::SeqCst) {
+                        hung.store(true, Ordering::SeqCst);
+                        unsafe {
+                            libc::kill(pid, libc::SIGKILL);
+                        }
+                        break;
+                    }
+                }
+            });
+        }
+        Ok(std::thread::spawn(move || {
+            let mut lines = Vec::new();
+            for l in BufReader::new(out).lines().map_while(Result::ok) {
+                *last.lock().unwrap() = std::time::Instant::now();
+                lines.push(l);
+            }
+            done.store(true, Ordering::SeqCst);
             let st = c.wait().ok().and_then(|s| s.code());
-            (lines, st)
-        })));
+            (lines, st, hung.load(Ordering::SeqCst))
+        }))
+    };
+    let mut pending = Vec::new();
+    for w in 0..nw {
+        pending.push((w, start(w, None)?));
     }
     let mut all = Vec::new();
     let mut notes = Vec::new();
-    let mut pending = handles;
     let mut restarts = 0;
     while let Some((w, h)) = pending.pop() {
-        let (lines, st) = h.join().map_err(|_| "collector thread panicked".to_string())?;
+        let (lines, st, hung) = h.join().map_err(|_| "collector thread panicked".to_string())?;
         let has_summary = lines.iter().any(|l| l.starts_with("{\"summary\""));
         let last_at = lines.iter().rev().find_map(|l| l.strip_prefix("{\"at\":").and_then(|x| x.trim_end_matches('}').parse::<u64>().ok()));
         all.extend(lines.into_iter().filter(|l| !l.starts_with("{\"at\":")));
         match st {
             Some(0) | Some(2) if has_summary => {}
             None | Some(_) if !has_summary && st != Some(2) => {
-                // killed by a signal or aborted: the code under test took the process down
+                // killed by a signal or aborted: the code under test took the process down (or did
+                // not come back and was killed by the watchdog)
                 let Some(at) = last_at else { return Err(format!("worker {w} ended abnormally before it started (status {st:?})")) };
                 restarts += 1;
                 if restarts > 20_000 {
                     return Err("too many worker crashes".into());
                 }
-                notes.push(format!("unit of work {at}: the compiler under test crashed the worker process (status {st:?}, e.g. stack overflow); skipped"));
-                let mut c = mk(w).env(START_ENV, (at + nw).to_string()).stdout(Stdio::piped()).stderr(Stdio::null()).spawn().map_err(|e| e.to_string())?;
-                let out = c.stdout.take().unwrap();
-                pending.push((w, std::thread::spawn(move || {
-                    let lines: Vec<String> = BufReader::new(out).lines().map_while(Result::ok).collect();
-                    let st = c.wait().ok().and_then(|s| s.code());
-                    (lines, st)
-                })));
+                if hung {
+                    notes.push(format!("unit of work {at}: no progress for {} s (the compiler under test did not terminate); worker killed, run skipped", limit.as_secs()));
+                } else {
+                    notes.push(format!("unit of work {at}: the compiler under test crashed the worker process (status {st:?}, e.g. stack overflow); skipped"));
+                }
+                pending.push((w, start(w, Some(at + nw))?));
             }
             other => return Err(format!("worker {w} ended abnormally (status {other:?})")),
         }
